@@ -76,6 +76,23 @@ def new_arr(i, shape, elem, name="arr", dtype=None):
     return a
 
 
+def _pattern_ok(t):
+    """z3 patterns may not contain ite / boolean connectives / quantifiers"""
+    stack, seen = [t], set()
+    while stack:
+        e = stack.pop()
+        if e.get_id() in seen:
+            continue
+        seen.add(e.get_id())
+        if z3.is_quantifier(e) or not z3.is_app(e):
+            return False
+        k = e.decl().kind()
+        if k in (z3.Z3_OP_ITE, z3.Z3_OP_AND, z3.Z3_OP_OR, z3.Z3_OP_NOT, z3.Z3_OP_IMPLIES, z3.Z3_OP_EQ, z3.Z3_OP_LE, z3.Z3_OP_LT, z3.Z3_OP_GE, z3.Z3_OP_GT):
+            return False
+        stack.extend(e.children())
+    return True
+
+
 def define1(i, n, elem, f, name="arr", dtype=None, alts=None):
     """fresh 1-D array r of length n with  forall k in [0,n). r[k] == f(k).
     alts: functions k -> source term; each becomes an alternative trigger so that the axiom also fires from the
@@ -88,12 +105,15 @@ def define1(i, n, elem, f, name="arr", dtype=None, alts=None):
     for alt in alts or []:
         try:
             t = alt(k)
-            if is_z3(t) and not z3.is_const(t) and z3.is_app(t) and t.decl().kind() in (z3.Z3_OP_SELECT, z3.Z3_OP_UNINTERPRETED):
+            if is_z3(t) and not z3.is_const(t) and z3.is_app(t) and t.decl().kind() in (z3.Z3_OP_SELECT, z3.Z3_OP_UNINTERPRETED) and _pattern_ok(t):
                 pats.append(t)
         except Exception:
             pass
-    i.ctx.assume(z3.ForAll([k], z3.Implies(z3.And(k >= 0, k < to_z3(n, Int)), z3.Select(r.data, k) == body),
-                           patterns=pats))
+    try:
+        ax = z3.ForAll([k], z3.Implies(z3.And(k >= 0, k < to_z3(n, Int)), z3.Select(r.data, k) == body), patterns=pats)
+    except z3.Z3Exception:
+        ax = z3.ForAll([k], z3.Implies(z3.And(k >= 0, k < to_z3(n, Int)), z3.Select(r.data, k) == body), patterns=pats[:1])
+    i.ctx.assume(ax)
     return r
 
 
@@ -301,6 +321,8 @@ def norm_index(i, k, n, node, what="index"):
         return n + k
     k = to_z3(k, Int)
     i.safe(what, z3.And(k >= -n, k < n), node)
+    if not i.ctx.feasible(k < 0):
+        return k  # provably non-negative on this path: no wrap-around term needed
     return z3.If(k < 0, k + n, k)
 
 
@@ -458,6 +480,15 @@ def _setitem(i, a, ix, val, node):
         k = norm_index(i, ix, a.shape[0], node)
         write(i, a, z3.Store(a.data, k, to_z3(val, a.elem_sort)), node)
         return True
+    if (isinstance(ix, tuple) and len(ix) == 2 and not isinstance(ix[0], (SliceV, Arr)) and isinstance(ix[1], SliceV)
+            and ix[1].lo is None and ix[1].hi is None and ix[1].step is None):
+        # a[r, :] = row
+        rk = norm_index(i, ix[0], a.shape[0], node)
+        if isinstance(val, Arr) and val.ndim == 1:
+            i.safe("broadcast", to_z3(val.shape[0], Int) == to_z3(a.shape[1], Int), node)
+            write(i, a, z3.Store(a.data, rk, val.data), node)
+            return True
+        raise Unsupported("row assignment of a non-1-D value", node)
     if isinstance(ix, tuple) and len(ix) == 2 and not any(isinstance(x, (SliceV, Arr)) for x in ix):
         rk = norm_index(i, ix[0], a.shape[0], node)
         ck = norm_index(i, ix[1], a.shape[1], node)
